@@ -595,6 +595,14 @@ func coveredBySigma(b []byte, prefixes []string, maxLen int) bool {
 	return false
 }
 
+func allCells(n int) []int {
+	out := make([]int, n)
+	for i := range out {
+		out[i] = i
+	}
+	return out
+}
+
 type riskyIn struct {
 	b    []byte
 	meta string
@@ -713,6 +721,13 @@ func build(thorough bool) spaces {
 	}
 	for _, r := range ioRisky {
 		addRisky("io", r, readerCells)
+	}
+
+	// ref domain: back-references converted into destinations of another type; all edits and all huge values
+	refIn, refRisky := explicit("ref", refStreams(), allOf, allOf, nil)
+	sp.jobs = append(sp.jobs, chunk("ref", refIn, 400)...)
+	for _, r := range refRisky {
+		addRisky("ref", r, allCells(len(refDests)))
 	}
 
 	// rpc domains: huge counts on every third valid message in the quick tier, on all of them in thorough
@@ -871,6 +886,9 @@ func shortCell(v violRec) string {
 	}
 	if v.Domain == "svc" {
 		return []string{"functions", "missing-method"}[v.Cell]
+	}
+	if v.Domain == "ref" {
+		return refDests[v.Cell].String()
 	}
 	return strings.TrimPrefix(v.Name, "client returning ")
 }
@@ -1248,6 +1266,8 @@ func main() {
 	sp.info["io_explicit_inputs"] = sp.explicitN["io"]
 	sp.info["svc_explicit_inputs"] = sp.explicitN["svc"]
 	sp.info["cli_explicit_inputs"] = sp.explicitN["cli"]
+	sp.info["ref_explicit_inputs"] = sp.explicitN["ref"]
+	sp.info["ref_cells"] = len(refDests)
 	sp.info["corpus_streams"] = sp.corpusN
 	run.Set("space", sp.info)
 	run.Assumption("scope hypothesis: a decoder defect reachable from untrusted bytes shows on a string of at most the stated length over the tag alphabet, on a single-byte edit or a count/length/index replacement of a short valid stream, or on a nesting bomb")
